@@ -30,7 +30,7 @@ def run(ctx):
 
     # ---- leg B generator
     rng = random.Random(ctx.seed)
-    behs = vlib.tlc_behaviours(ctx, "Handler", "Handler_gen_c15.cfg", simulate=5000 if T else 500, depth=26, timeout=900)
+    behs = vlib.tlc_behaviours(ctx, "Handler", "Handler_gen_c15.cfg", simulate=3000 if T else 500, depth=26, timeout=900)
     cases, infeasible = [], 0
     for b in behs:
         c = hc.concretize(rng, len(cases), b, PROP)
@@ -57,7 +57,7 @@ def run(ctx):
                        "upstream, a cache or an option-copying plugin acted, replayed on real plugins")
     ctx.cov["exhaustive"] = False
     log("leg B: %d scripted cases gave the generator's reply OPT, %d took another contract-conforming path" % (st["steered"], st["mismatch"]))
-    if not st["rejected"]:
+    if not ctx.violations:
         if st["steered"] < max(1, n_scripted // 4):
             raise vlib.Infra("dead driver: only %d of %d scripted cases produced the generator's reply" % (st["steered"], n_scripted))
         hc.corrupt_check(ctx, PROP, st["recs"])
